@@ -418,4 +418,33 @@ def _initvar(ctx):
                 ctx.violation("other-substitution-accepted:dataclass:initvar", f"{hint!r}: {bd!r} accepted as {o.value!r}", {"source": source})
 
 
-DIRECTED = {"generic-namedtuple-one-parameter": _directed, "initvar-of-type-variable": _initvar}
+def _init_false_fields(ctx):
+    """Fields with init=False are dumped (never loaded): an INHERITED one takes the type its parent's parametrisation binds, like every
+    other member - through a plain child, a generic child that re-uses the variable's name, and a grandchild (seeded change: every
+    init=False field was reported as 're-annotated here', so the parent's binding was not applied)."""
+    from decimal import Decimal  # noqa: PLC0415
+
+    mod = types.ModuleType(f"vlib_c16_if{next(_n)}")
+    sys.modules[mod.__name__] = mod
+    source = ("from dataclasses import dataclass, field\nfrom decimal import Decimal\nfrom typing import Generic, TypeVar, List, Dict\nT = TypeVar('T')\nK = TypeVar('K')\n"
+              "@dataclass\nclass Series(Generic[T]):\n    items: List[T]\n    total: List[T] = field(init=False, default_factory=list)\n    by_key: Dict[str, T] = field(init=False, default_factory=dict)\n"
+              "    def __post_init__(self):\n        self.total = list(self.items)\n        self.by_key = {'first': self.items[0]} if self.items else {}\n"
+              "@dataclass\nclass DecimalSeries(Series[Decimal]):\n    pass\n"
+              "@dataclass\nclass Labeled(Series[Decimal], Generic[T]):\n    label: T = None\n"
+              "@dataclass\nclass Grand(DecimalSeries):\n    note: str = ''\n"
+              "@dataclass\nclass Own(Series[K], Generic[K]):\n    extra: List[K] = field(init=False, default_factory=list)\n")
+    exec(compile(source, f"<{mod.__name__}>", "exec", dont_inherit=True), mod.__dict__)  # noqa: S102
+    four = Decimal("4.0")
+    want = {"items": ["4.0"], "total": ["4.0"], "by_key": {"first": "4.0"}}
+    cases = [(mod.Series[Decimal], mod.Series([four]), want), (mod.DecimalSeries, mod.DecimalSeries([four]), want), (mod.Grand, mod.Grand([four]), {**want, "note": ""}),
+             (mod.Labeled[int], mod.Labeled([four], 1), {**want, "label": 1}), (mod.Labeled[str], mod.Labeled([four], "l"), {**want, "label": "l"}),
+             (mod.Own[Decimal], mod.Own([four]), {**want, "extra": []})]
+    for hint, obj, expected in cases:
+        out = attempt(Retort().dump, obj, hint)
+        ctx.evaluated(("directed-init-false", repr(hint)))
+        ctx.count("conforming_dumps")
+        if out.kind != "ok" or not _dump_eq(out.value, expected):
+            ctx.violation("dump-differs:dataclass:inherited-init-false-field", f"{hint!r}: dump gave {out!r:.250}, the substituted types give {expected!r}", {"source": source})
+
+
+DIRECTED = {"generic-namedtuple-one-parameter": _directed, "initvar-of-type-variable": _initvar, "inherited-init-false-fields": _init_false_fields}
